@@ -2,7 +2,7 @@
 # For every seeded change: apply to /repo, run all checks once, record which properties/keys fire, revert.
 # Writes /verif/seeded/<id>/caught.json ; prints a summary table.
 cd /verif
-for d in seeded/*/; do
+for d in seeded/${1:-*}/; do
   id=$(basename $d)
   [ -f $d/patch.diff ] || continue
   if ! git -C /repo apply --check $PWD/$d/patch.diff 2>/dev/null; then echo "$id: PATCH-DOES-NOT-APPLY"; continue; fi
